@@ -54,9 +54,8 @@ def run_policies(run, tier, seed, only):
         if only and dn not in only and "pol" not in only:
             continue
         depth[name] = POL.depth_for(name, budget)
-        d = run.driver(dn, {"alphabet": [list(o) for o in POL.alphabet(name)], "depth": depth[name],
-                            "node_budget": budget})
-        d._t0 = time.time()
+        run.driver(dn, {"alphabet": [list(o) for o in POL.alphabet(name)], "depth": depth[name],
+                        "node_budget": budget, "policy": POL.describe(name)})
         jobs += POL.jobs_for(name, depth[name], split=2 if tier == "quick" else 3)
     if not jobs:
         return
@@ -84,21 +83,51 @@ def run_policies(run, tier, seed, only):
         d.wall_s = wall * a["nodes"] / tot  # share of the pooled wall time
 
 
+def _rerun(rep, verbose=False):
+    """Re-execute one recorded case without the explorer; returns [(fingerprint, description)]."""
+    if rep.get("driver") == "policy":
+        if verbose:
+            return POL.replay(rep["config"], rep["ops"])
+        import contextlib
+        import io
+        with contextlib.redirect_stdout(io.StringIO()):
+            return POL.replay(rep["config"], rep["ops"])
+    if verbose:
+        return PP.replay(rep)
+    ex = PP.execute(rep["kind"], rep["cfg"], tuple(tuple(a) for a in rep["arrivals"]))
+    return ex.viol
+
+
+def confirm(run):
+    """Same schedule, same verdict: every violating case is re-run from its replay data before it is
+    reported; a case that does not reproduce is a defect of the HARNESS (unowned nondeterminism)."""
+    from mc.evidence import jsonable
+    import json
+    for fp, (desc, rep) in list(run.violations.items()):
+        rep = json.loads(json.dumps(jsonable(rep)))  # exactly what a replay file would hold
+        again = [f for f, _d in _rerun(rep)]
+        if fp not in again:
+            raise RuntimeError(f"C08 harness error: violation {fp!r} did not reproduce from its replay data "
+                               f"{rep!r} (got {again})")
+    run.notes.append(f"{len(run.violations)} violating case(s) re-executed from replay data before reporting: "
+                     f"all reproduced")
+
+
 def main(tier, seed, only=None):
     run = Run(PID, tier, seed, "model_checking", rule=RULE, assumptions=ASSUMPTIONS)
     run_policies(run, tier, seed, only)
     PP.run_pipes(run, tier, seed, only)
+    confirm(run)
+    if only:
+        run.notes.append(f"partial run: --only {sorted(only)}")
     return run.finish()
 
 
 def replay(data):
-    rep = data["replay"]
+    rep = data.get("replay") or data.get("witness") or data
     print(f"fingerprint: {data.get('fingerprint')}")
     print(f"description: {data.get('description')}")
-    if rep.get("driver") == "policy":
-        v = POL.replay(rep["config"], rep["ops"])
-    else:
-        v = PP.replay(rep)
+    v = _rerun(rep, verbose=True)
     want = data.get("fingerprint")
     hit = [fp for fp, _ in v if fp == want] if want else v
     print("reproduced" if hit else ("other violations only" if v else "no violation"))
